@@ -1,7 +1,7 @@
 (** C17 — property theorems only: statement, [exact] of a lemma proved in Proofs/C17_Sampling.v, [Print Assumptions].
     Model: Model/C17_Sampling.v (mirrors pybrops/core/random/sampling.py and core/util/array.py:sliceaxisix). *)
 From Coq Require Import Permutation Sorting.Sorted Qround PrimFloat.
-From PV Require Import Lib.Common Lib.FloatK Model.C17_Sampling Proofs.C17_Sampling Gen.C17_Kernel Model.C17_KernelProg Proofs.C17_Kernel.
+From PV Require Import Lib.Common Lib.FloatK Model.C17_Sampling Proofs.C17_Sampling Gen.C17_Kernel Model.C17_KernelProg Proofs.C17_Kernel Proofs.C17_Laws Proofs.C17_Float.
 
 (** * stochastic universal sampling *)
 
@@ -392,4 +392,47 @@ Example C17_kernel_hyps_satisfiable :
 Proof.
   split; [split; [apply Qle_bool_iff; reflexivity | split; [reflexivity | vm_compute; reflexivity]]|].
   split; [vm_compute; reflexivity|]. split; [split; vm_compute; reflexivity|]. repeat split; vm_compute; reflexivity.
+Qed.
+
+(** the binary64 comparisons of the source, as regenerated ([k_sus_guard_f]: the while test on doubles; [k_sus_positive_f]:
+    p > 0.0 on doubles), are on finite doubles the exact-value comparisons that the model and the assembled program use *)
+Theorem C17_kernel_float_comparisons : forall ix last c ptr x,
+  f_finite c = true -> f_finite ptr = true -> f_finite x = true ->
+  k_sus_guard_f ix last c ptr = k_sus_guard ix last (f2q c) (f2q ptr) /\ k_sus_positive_f x = k_sus_positive (f2q x).
+Proof. exact kernel_float_comparisons. Qed.
+Print Assumptions C17_kernel_float_comparisons.
+
+(** * further laws *)
+(** a table on which no exchange of two entries lowers the number of repeats is returned unchanged after exactly one pass,
+    for every exchange order (valid permutation or not) ... *)
+Theorem C17_outcross_fixed_point : forall m x pm rest,
+  (forall i j, (i < j < length x)%nat -> (score m x <= score m (swap i j x))%Z) ->
+  outcross m x (pm :: rest) = Some (x, 1%nat).
+Proof. exact outcross_fixed_point. Qed.
+Print Assumptions C17_outcross_fixed_point.
+
+(** ... hence a second call on the result of a call changes nothing: the result of a call depends on the table at that
+    call only, and outcross shuffling is idempotent *)
+Theorem C17_outcross_idempotent : forall m x pms y n pm rest,
+  Forall (fun pm => Permutation pm (seq 0 (length (all_pairs (length x))))) pms ->
+  outcross m x pms = Some (y, n) -> outcross m y (pm :: rest) = Some (y, 1%nat).
+Proof. exact outcross_idempotent. Qed.
+Print Assumptions C17_outcross_idempotent.
+
+(** scale covariance: multiplying every weight and the offset by the same positive factor selects the same elements
+    (exact-rational pointers; every descending layout, every k, every shuffle) *)
+Theorem C17_sus_scale_covariant : forall c : Q, 0 < c -> forall p order k off perm,
+  sus_q (map (Qmult c) p) order k (c * off) perm = sus_q p order k off perm.
+Proof. exact sus_q_scale. Qed.
+Print Assumptions C17_sus_scale_covariant.
+
+(** non-vacuity of the laws: a valid oracle and its result, a local optimum, a positive factor, finite doubles *)
+Example C17_laws_hyps_satisfiable :
+  Forall (fun pm => Permutation pm (seq 0 (length (all_pairs (length [1; 1; 2; 2; 3; 3]%Z))))) [seq 0 15; seq 0 15; seq 0 15; seq 0 15] /\
+  outcross 2 [1; 1; 2; 2; 3; 3]%Z [seq 0 15; seq 0 15; seq 0 15; seq 0 15] = Some ([3; 1; 1; 2; 2; 3]%Z, 3%nat) /\
+  outcross 2 [3; 1; 1; 2; 2; 3]%Z [seq 0 15] = Some ([3; 1; 1; 2; 2; 3]%Z, 1%nat) /\
+  0 < 3 # 2 /\ sus_q (map (Qmult (3 # 2)) [1#2; 0; 3; 3#2]) [2; 3; 0; 1]%nat 4 ((3 # 2) * (1#4)) [3; 1; 0; 2]%nat = sus_q [1#2; 0; 3; 3#2] [2; 3; 0; 1]%nat 4 (1#4) [3; 1; 0; 2]%nat /\
+  f_finite 0.25%float = true /\ k_sus_guard_f 0 1 0.25%float 0.25%float = true.
+Proof.
+  split; [repeat constructor; apply Permutation_refl|]. repeat split; vm_compute; reflexivity.
 Qed.
